@@ -54,7 +54,7 @@ def build_exprdump(b):
                             f"-L{b.lib}", "-lexpress", f"-Wl,-rpath,{b.lib}"], capture_output=True, text=True)
         if r.returncode:
             raise RuntimeError("h_exprdump compile failed: " + r.stderr[-2000:])
-    return _locked_build(b, "h_exprdump", go)
+    return _locked_build(b, "h_exprdump-p", go)       # name changes with the harness source
 
 
 def type_enum(b):
@@ -92,6 +92,101 @@ def ast_from_dump(b, exp_path, env=None):
     if len(schemas) == 1:     # a single schema cannot depend on another one: exp2cxx's pass structure is modelled
         schemas = [(n, [(ln, re.sub(r" 1$", " 0", l) if not l.startswith("other") else l) for ln, l in ds]) for n, ds in schemas]
     return [(n, [l for _, l in sorted(ds, key=lambda p: p[0])]) for n, ds in schemas]
+
+
+def pass_objects_from_dump(b, exp_path, env=None):
+    """the same driver lines as pass_objects(), but read off the model the REAL parser + resolver built (h_exprdump -p):
+    [(schema name, [pobj lines])] in textual order, or None if the file is rejected.  Works for any file, generated or not."""
+    r = subprocess.run([build_exprdump(b), "-p", exp_path], capture_output=True, text=True, errors="replace", env=env or b.env())
+    if r.returncode != 0:
+        return None
+    schemas = []          # (name, line, [obj]) ; obj = dict
+    kind = {}             # q -> (isEnum, isSelect)
+    subs = {}             # q entity -> [q direct subtypes]
+    cur = obj = None
+    for line in r.stdout.splitlines():
+        w = line.split()
+        if w[0] == "schema":
+            cur = (w[1], int(w[2]), [])
+            schemas.append(cur)
+        elif w[0] != "P":
+            continue
+        elif w[1] == "type":
+            obj = dict(cls="T", name=w[2], q=f"{cur[0]}.{w[2]}", line=int(w[3]), ise=int(w[4]), iss=int(w[5]), ren=w[6], items=[], eattrs=[], sups=[])
+            kind[obj["q"]] = (obj["ise"], obj["iss"])
+            cur[2].append(obj)
+        elif w[1] == "entity":
+            obj = dict(cls="E", name=w[2], q=f"{cur[0]}.{w[2]}", line=int(w[3]), ise=0, iss=0, ren="-", items=[], eattrs=[], sups=[])
+            cur[2].append(obj)
+        elif w[1] == "item" and w[2] == "T":
+            if w[3] != "-" and (w[4] == "1" or w[5] == "1"):
+                obj["items"].append(w[3]); kind.setdefault(w[3], (int(w[4]), int(w[5])))
+        elif w[1] == "item" and w[2] == "E":
+            pass
+        elif w[1] == "eattr":
+            if w[2] != "-" and (w[3] == "1" or w[4] == "1"):
+                obj["eattrs"].append(w[2]); kind.setdefault(w[2], (int(w[3]), int(w[4])))
+        elif w[1] == "attr":
+            if w[2] != "-" and (w[3] == "1" or w[4] == "1"):
+                obj["items"].append(w[2]); kind.setdefault(w[2], (int(w[3]), int(w[4])))
+        elif w[1] == "super":
+            obj["sups"].append(w[2])
+        elif w[1] == "sub":
+            subs.setdefault(obj["q"], []).append(w[2])
+    def descendants(qn, seen):
+        for c in subs.get(qn, []):
+            if c not in seen:
+                seen.append(c); descendants(c, seen)
+        return seen
+    txt = open(exp_path, encoding="latin-1").read()
+    txt = re.sub(r"\(\*.*?\*\)", " ", txt, flags=re.S)
+    order = [m.group(1).lower() for m in re.finditer(r"(?im)^\s*SCHEMA\s+([A-Za-z0-9_]+)\s*;", txt)]
+    schemas.sort(key=lambda s: order.index(s[0]) if s[0] in order else len(order))
+    out = []
+    for sn, _, objs in schemas:
+        lines, stubs = [], []
+        def ref(qn):
+            if qn.split(".")[0] != sn and qn not in stubs:
+                stubs.append(qn)
+            return qn
+        for o in sorted(objs, key=lambda o: o["line"]):
+            if o["cls"] == "T":
+                ren = ref(o["ren"]) if (o["ren"] != "-" and (o["ise"] or o["iss"])) else "-"
+                items = [ref(x) for x in o["items"]] if o["iss"] else []
+                eattrs = [ref(x) for x in o["eattrs"]] if o["iss"] else []
+                lines.append(f"pobj T {o['name']} {o['q']} {o['ise']} {o['iss']} {ren} {','.join(items) or '-'} {','.join(eattrs) or '-'} - -")
+            else:
+                items = [ref(x) for x in o["items"]]
+                sup = [ref(x) for x in o["sups"]]
+                des = descendants(o["q"], [])
+                lines.append(f"pobj E {o['name']} {o['q']} 0 0 - {','.join(items) or '-'} - {','.join(des) or '-'} {','.join(sup) or '-'}")
+        for qn in stubs:
+            ise, iss = kind.get(qn, (0, 0))
+            lines.append(f"pobj S {qn.split('.', 1)[1]} {qn} {ise} {iss} - - - - -")
+        out.append((sn, lines))
+    return out
+
+
+def complex_lists_from_dump(b, exp_path, env=None):
+    """driver lines `cl <name> <dependent>` for the Lean model of ComplexCollect (GenCollect.lean): one ComplexList per entity
+    that has subtypes, dependent = it has supertypes itself; in the order of the parser's dictionaries (the model's result does
+    not depend on that order: C12_compstructs_order_names_only).  None if the file is rejected."""
+    r = subprocess.run([build_exprdump(b), "-p", exp_path], capture_output=True, text=True, errors="replace", env=env or b.env())
+    if r.returncode != 0:
+        return None
+    ents, cur = [], None
+    for line in r.stdout.splitlines():
+        w = line.split()
+        if w[:2] == ["P", "entity"]:
+            cur = {"name": w[2], "subs": 0, "sups": 0}
+            ents.append(cur)
+        elif w[:2] == ["P", "type"]:
+            cur = None
+        elif cur is not None and w[:2] == ["P", "sub"]:
+            cur["subs"] += 1
+        elif cur is not None and w[:2] == ["P", "super"]:
+            cur["sups"] += 1
+    return [f"cl {e['name']} {int(e['sups'] > 0)}" for e in ents if e["subs"]]
 
 
 def ast_lines(path, schemas):
